@@ -28,6 +28,22 @@ CHECKS = {
         note="Reference model follows RTPS 2.5 8.4.12 acceptance rules; one named relaxation (assembly buffers idle >= 9.5 s when another DATAFRAG arrives are not asserted about). AckNack.count and NackFrag.count are checked as separate increasing sequences (RTPS keeps them separate).",
         technique=TECH + "; emitted ACKNACK/NACKFRAG checked against a reference model of reader knowledge",
     ),
+    "C02": dict(
+        engine="E1",
+        category="exploration",
+        text="Seeded deterministic simulation of a real reliable Writer node and 1-3 real Reader nodes over a simulated network with every protocol timer on simulated time. Phase 1 injects a seed-chosen finite fault pattern (random drop up to 50 %, duplication, jitter up to 500 ms, one-way and two-way partitions, burst loss of one submessage kind, targeted k-th-datagram drops) into a workload of plain and fragmented writes; phase 2 is fault-free. Oracle: bounded liveness (within 30 s + 2 s/sample after the last fault every sample still in the writer's history has been handed over byte-exact and the reader's frontier is last+1), then 5 s without any datagram; in-order/once/byte-exact hand-over is asserted throughout.",
+        design_ref="DESIGN.md section 5 C02, section 12",
+        note="Readers matched before the first write. Liveness bound calibrated on the repaired tree (worst observed recovery ~2.3 s, reported as max.recovery_ms). Found and fixed: NACKFRAG never reached the writer (fix commit 2112216).",
+        technique=TECH + "; bounded-liveness and quiescence oracle after the faults stop",
+    ),
+    "C04": dict(
+        engine="E1",
+        category="exploration",
+        text="Seeded simulation of the real Writer (history, reader proxies, repair, heartbeat, cache cleaning on the simulated 2-minute timer) against 0-4 scripted readers that send ACKNACKs with any non-decreasing base and any bitmap, answer heartbeats honestly or not at all, and are matched / lost (endpoint or participant) / re-matched at seed-chosen points; writes plain, fragmented and to_single_reader. After every step: (a) a sample leaves the history only if every matched reliable reader acknowledged it or depth forces it out, (b) history <= depth + unacknowledged after each cleaning, (c) every requested advertised SN answered within budget by exactly the written bytes (DATA or complete DATAFRAG set) or a GAP, (d) HEARTBEAT first/last exact, (e) single-reader samples never leave towards another reader.",
+        design_ref="DESIGN.md section 5 C04, section 12",
+        note="Scripted readers keep their ACKNACK base non-decreasing within a match (a real reader does, C03). KeepAll without ResourceLimits has no limit, so clause (b) is asserted for KeepLast(1-5). Found and fixed: history never trimmed without reliable readers / with ack beyond last (8911948); late joiner never GAPped for another reader's single-reader sample (a7f8b11).",
+        technique=TECH + "; per-step invariants against a model of acknowledgments and outstanding requests",
+    ),
     "C05": dict(
         engine="E1",
         category="exploration",
@@ -35,6 +51,14 @@ CHECKS = {
         design_ref="DESIGN.md section 5 C05, section 12",
         note="One fragment size per scripted writer (RTPS 8.4.14.1.1); 'all fragments arrived' uses superset knowledge (every fragment number delivered at some time).",
         technique=TECH + "; reassembled bytes compared with the written bytes",
+    ),
+    "C20": dict(
+        engine="E1",
+        category="exploration",
+        text="Writer-level half of the property, in the same simulation as C04: WriterCommand::WaitForAcknowledgments with its completion channel, issued before/after writes, processed immediately or later, with ACKNACKs of any base (last, last+1, 0, beyond), reader match/loss while waiting and best-effort readers. Model: need = reliable readers matched when the writer takes the command and not yet past wait_until (= last SN written before the call). Success only if every needed reader acknowledged past wait_until or was lost (safety), and by the step that makes this true (promptness). The DataWriter API forms (timeout of the sync form, pending/completion of the async form) are the E2 part.",
+        design_ref="DESIGN.md section 5 C20, section 12",
+        note="Safety uses the lenient reading of a non-conformant ACKNACK base 0 (stored as 1 by the reader proxy), promptness the strict one, so the writer's two views of base 0 cannot alarm. One outstanding wait at a time.",
+        technique=TECH + "; completion channel checked against an acknowledgment model after every step",
     ),
 }
 
